@@ -53,6 +53,7 @@ macro_rules! for_all_types {
 			// derived
 			S1, S2, UnitS, Nt, Cp, Sk, E1, Disc, G<u8>, G<Vec<u16>>, G<Option<Box<u8>>>, Tr, Box<Tr>, Vec<Tr>, Option<E1>, (E1, Disc), Box<E1>, Vec<Disc>, [Disc; 3], Vec<Cp>, Vec<Sk>,
 			BTreeMap<u8, E1>, Result<E1, S2>,
+			TrC, Box<TrC>, [TrC; 2], Rc<TrC>, Vec<TrC>, TrK, Box<TrK>, Arc<TrK>, [TrK; 3], Option<Box<TrK>>, TrP, Box<TrP>, [TrP; 2], AllSk, Vec<AllSk>, [AllSk; 2], Box<AllSk>, (AllSk, u8),
 			// deeper nestings
 			Vec<Vec<Vec<Vec<u8>>>>, Vec<Box<Vec<Box<u8>>>>, Vec<BTreeMap<u8, Vec<u8>>>, BTreeMap<u8, Vec<BTreeSet<u8>>>, LinkedList<VecDeque<Vec<u16>>>,
 			Option<Vec<Option<Vec<Option<u8>>>>>, Box<Vec<Box<Vec<Box<u8>>>>>, (Vec<Vec<u8>>, Box<Vec<u8>>, BTreeSet<u8>)
